@@ -260,12 +260,12 @@ def get_schedule_from_csv(obj, dir_path):
             target = float(row[col_idx])
             window = row[window_col_idx].strip() == '1' if window_col_idx is not None else None
 
-            if target != last_target or window != last_window:
-                # targets/window different: generate new event
-                last_target = target
-                last_window = window
+            gc_changed = target != last_target or window != last_window
+            vehicle_changed = any(
+                float(row[-1 - i]) != vehicle_schedules[i] for i in range(len(vehicle_names)))
 
-                # get start_time
+            if gc_changed or vehicle_changed:
+                # get start_time of this row (needed for connector and vehicle events alike)
                 try:
                     # read out event start time from first column
                     start_time = util.datetime_from_isoformat(row[0])
@@ -291,6 +291,11 @@ def get_schedule_from_csv(obj, dir_path):
                 assert signal_time <= start_time, (
                     "Wrong signal in {} at index {}, starts before being sent (check your dates!)"
                     .format(obj['csv_file'], idx + 1))
+
+            if gc_changed:
+                # targets/window different: generate new event
+                last_target = target
+                last_window = window
 
                 schedule.append(GridOperatorSignal({
                     "start_time": start_time.isoformat(),
